@@ -974,13 +974,23 @@ const POOL: [&str; 26] = [
 ];
 const GLYPHPOOL: [&str; 6] = ["x", "y", "z", "A", "B", "public.kern1.A"];
 
-pub fn random_case(seed: u64, idx: u64) -> Case {
+pub fn random_case(seed: u64, idx: u64, harvested: &[String]) -> Case {
     let mut r = Rng::new(seed.wrapping_mul(0x2545_F491_4F6C_DD1D) ^ idx.wrapping_mul(0x9E37_79B9_7F4A_7C15) ^ 0xC15);
     // a small sub-universe, so that the set relations between names are dense
     let usize_ = 3 + r.below(6) as usize;
     let mut uni: Vec<&str> = vec![];
     while uni.len() < usize_ {
-        let n = *r.pick(&POOL);
+        // one name in four from around the prefixes in byte order / from the source's literals
+        let n: &str = if r.chance(1, 4) {
+            let k = r.below((VAL_NAMES.len() + harvested.len()) as u64) as usize;
+            if k < VAL_NAMES.len() {
+                VAL_NAMES[k]
+            } else {
+                harvested[k - VAL_NAMES.len()].as_str()
+            }
+        } else {
+            *r.pick(&POOL)
+        };
         // the bare prefixes make the whole file invalid: keep them rare
         if (n == K1 || n == K2) && !r.chance(1, 6) {
             continue;
@@ -1075,7 +1085,133 @@ pub fn corpus_cases(dir: &Path) -> Vec<(String, Case)> {
     v
 }
 
+/// Names around the two kerning prefixes in byte order: before, between and after the
+/// `public.kern1.*` and `public.kern2.*` runs of a sorted map, and near-prefix spellings.
+pub const VAL_NAMES: [&str; 20] = [
+    "Public.kern1.A", "a", "public.kerN1.A", "public.kern", "public.kern1", "public.kern1.", "public.kern1.A",
+    "public.kern1.\u{e9}", "public.kern1/", "public.kern10.A", "public.kern1A", "public.kern1_x", "public.kern2",
+    "public.kern2.", "public.kern2.A", "public.kern2.B", "public.kern3.A", "zzz", "\u{e9}", "public.kern1.B",
+];
+const VAL_CORE: [&str; 6] = ["public.kern1.A", "public.kern1.B", "public.kern2.A", "public.kern2.B", "public.kern1.", "public.kern2."];
+
+/// "magic" strings: the string literals of src/groups.rs and src/upconversion.rs that are valid
+/// names (code before the test modules first), each also with its last byte dropped and with
+/// a letter appended
+pub fn harvested_names(repo: &Path) -> Vec<String> {
+    let mut lits: Vec<String> = vec![];
+    for pass in 0..2 {
+        for f in ["src/groups.rs", "src/upconversion.rs"] {
+            let src = std::fs::read_to_string(repo.join(f)).unwrap_or_default();
+            let cut = src.find("#[cfg(test)]").unwrap_or(src.len());
+            let part = if pass == 0 { &src[..cut] } else { &src[cut..] };
+            let b: Vec<char> = part.chars().collect();
+            let mut i = 0;
+            while i < b.len() {
+                if b[i] == '"' {
+                    let mut j = i + 1;
+                    let mut t = String::new();
+                    let mut ok = true;
+                    while j < b.len() && b[j] != '"' {
+                        if b[j] == '\\' || b[j] == '{' || b[j] == '\n' {
+                            ok = false;
+                        }
+                        if b[j] == '\\' {
+                            j += 1;
+                        }
+                        t.push(b[j.min(b.len() - 1)]);
+                        j += 1;
+                    }
+                    if ok && !t.is_empty() && t.len() <= 32 && !t.contains(' ') && Name::new(&t).is_ok() && !lits.contains(&t) {
+                        lits.push(t);
+                    }
+                    i = j + 1;
+                } else if b[i] == '\'' && i + 2 < b.len() && b[i + 1] == '"' && b[i + 2] == '\'' {
+                    i += 3; // the char literal '"'
+                } else {
+                    i += 1;
+                }
+            }
+        }
+    }
+    let mut out: Vec<String> = vec![];
+    for l in lits.iter().take(10) {
+        let mut vs = vec![l.clone(), format!("{}A", l)];
+        let mut cs: Vec<char> = l.chars().collect();
+        cs.pop();
+        if !cs.is_empty() {
+            vs.push(cs.into_iter().collect());
+        }
+        for v in vs {
+            if !out.contains(&v) && !VAL_NAMES.contains(&v.as_str()) && out.len() < 24 {
+                out.push(v);
+            }
+        }
+    }
+    out
+}
+
+/// the validation stream: format 3 (no conversion), no kerning; every set of <= 3 of the
+/// VAL_NAMES (and pairs / core triples with the harvested names) as group names, under three
+/// member patterns that make same-side groups overlap or not
+pub fn validation_cases(harvested: &[String]) -> Vec<Case> {
+    let f: Vec<String> = VAL_NAMES.iter().map(|s| s.to_string()).collect();
+    let mut sets: Vec<Vec<String>> = vec![vec![]];
+    for a in 0..f.len() {
+        sets.push(vec![f[a].clone()]);
+        for b in a + 1..f.len() {
+            sets.push(vec![f[a].clone(), f[b].clone()]);
+            for c in b + 1..f.len() {
+                sets.push(vec![f[a].clone(), f[b].clone(), f[c].clone()]);
+            }
+        }
+    }
+    // four groups: a first-side and a second-side pair with one name of the universe in addition
+    for extra in f.iter() {
+        for (p, q) in [("public.kern2.A", "public.kern2.B"), ("public.kern1.A", "public.kern1.B"), ("public.kern1.A", "public.kern2.")] {
+            if extra != p && extra != q && extra != "public.kern1.\u{e9}" {
+                sets.push(vec!["public.kern1.\u{e9}".to_string(), extra.clone(), p.to_string(), q.to_string()]);
+            }
+        }
+    }
+    for h in harvested {
+        sets.push(vec![h.clone()]);
+        for u in f.iter().chain(harvested.iter()) {
+            if u != h {
+                sets.push(vec![h.clone(), u.clone()]);
+            }
+        }
+        for a in 0..VAL_CORE.len() {
+            for b in a + 1..VAL_CORE.len() {
+                if h != VAL_CORE[a] && h != VAL_CORE[b] {
+                    sets.push(vec![h.clone(), VAL_CORE[a].to_string(), VAL_CORE[b].to_string()]);
+                }
+            }
+        }
+    }
+    let mut v = vec![];
+    for (si, set) in sets.iter().enumerate() {
+        for pat in 0..3 {
+            if set.is_empty() && pat > 0 {
+                continue;
+            }
+            let mut g = GMap::new();
+            for (i, n) in set.iter().enumerate() {
+                let ms = match pat {
+                    0 => vec!["x".to_string()],
+                    1 => vec![format!("m{}", i)],
+                    _ => vec![format!("m{}", i), "x".to_string()],
+                };
+                g.insert(n.clone(), ms);
+            }
+            v.push(Case { ver: 3, groups: Some(g), kerning: None, glyphs: vec![], shuffle: if (si + pat) % 3 == 0 { si as u64 * 2 + 1 } else { 0 } });
+        }
+    }
+    v
+}
+
 pub struct Plan {
+    pub validation: usize,
+    pub harvested: Vec<String>,
     pub corpus: Vec<(String, Case)>,
     pub exh_universes: usize,
     pub exh: Exh,
@@ -1093,8 +1229,24 @@ impl Plan {
             .map(PathBuf::from)
             .unwrap_or_else(|| PathBuf::from("corpus/C15"));
         let th = a.thorough();
+        let repo = a
+            .extra
+            .iter()
+            .position(|x| x == "--repo")
+            .and_then(|i| a.extra.get(i + 1))
+            .map(PathBuf::from)
+            .unwrap_or_else(|| PathBuf::from("/repo"));
+        let harvested = harvested_names(&repo);
+        // corpus first, then the validation stream (both travel as structured cases)
+        let mut pre = corpus_cases(&corpus_dir);
+        let ncorpus = pre.len();
+        for c in validation_cases(&harvested) {
+            pre.push((String::new(), c));
+        }
         Plan {
-            corpus: corpus_cases(&corpus_dir),
+            validation: pre.len() - ncorpus,
+            harvested,
+            corpus: pre,
             exh_universes: 2,
             exh: Exh::new(if th { 3 } else { 2 }),
             exh_stride: if th { 1 } else { 4 },
@@ -1129,8 +1281,10 @@ impl Plan {
     }
     pub fn kind(&self, i: usize) -> &'static str {
         let c = self.corpus.len();
-        if i < c {
+        if i < c - self.validation {
             "corpus"
+        } else if i < c {
+            "validation"
         } else if i < c + self.exh.len() + self.exh2_len() {
             "exhaustive"
         } else {
@@ -1147,7 +1301,7 @@ impl Plan {
         } else if i < c + e + self.exh2_len() {
             self.exh.case(&UNIVERSES[1], self.exh_pos(i).unwrap().1)
         } else {
-            random_case(self.seed, (i - c - e - self.exh2_len()) as u64)
+            random_case(self.seed, (i - c - e - self.exh2_len()) as u64, &self.harvested)
         }
     }
 }
@@ -1304,7 +1458,8 @@ pub fn main(a: &Args) {
     write_file(&a.out.join("values.txt"), &(it.vals.iter().map(|v| v.to_string()).collect::<Vec<_>>().join("\n") + "\n"));
     write_file(&a.out.join("oracle.json"), &serde_json::to_string(&fails).unwrap());
     let summ = serde_json::json!({
-        "cases": n, "corpus": plan.corpus.len(), "corpus_files": plan.corpus.iter().map(|x| x.0.clone()).collect::<Vec<_>>(),
+        "cases": n, "corpus": plan.corpus.len() - plan.validation, "validation_stream": plan.validation, "harvested_names": plan.harvested.clone(),
+        "corpus_files": plan.corpus.iter().map(|x| x.0.clone()).filter(|x| !x.is_empty()).collect::<Vec<_>>(),
         "exhaustive_universe_1": plan.exh.len(), "exhaustive_universe_2_slice": plan.exh2_len(),
         "exhaustive_stride_universe_2": plan.exh_stride, "exhaustive_member_variants": plan.exh.mvs, "random": plan.random,
         "converted": conv, "load_refused_invalid_groups": inv, "load_refused_upconversion_failure": upf,
